@@ -222,12 +222,15 @@ func C13(run *Run) {
 				f.OIDs.IDs = []string{}
 			}
 			peek := r.Intn(2) == 0
+			emptyNonNil := r.Intn(2) == 0
 			for _, b := range backends {
 				ds := envs[b].DS
 				ev := &rdEv{E: "Read", Backend: b, Op: op, F: f, Sorted: sorted, Got: []Tuple{}}
 				var conds []string
 				if len(f.Conds) > 0 {
 					conds = f.Conds
+				} else if emptyNonNil {
+					conds = []string{} // an empty list is "no conditions filter", like nil
 				}
 				var err error
 				switch op {
